@@ -532,6 +532,69 @@ fn bds50(c: &mut Ctx) {
     }
 }
 
+/// BDS 5,0: the fields are cross-checked by the decoder (TAS against ground speed, turn rate against roll). Every
+/// combination inside the documented acceptance region (TAS in [80, 500], |GS - TAS| <= 200, GS <= 600; roll and
+/// track rate of the same sign, |roll| <= 50) must be labelled and decode to the encoded values.
+fn bds50_pairs(c: &mut Ctx) {
+    let base = Bds50 { roll: Some((0, 28)), track: Some((0, 512)), gs: Some(200), rate: Some((0, 32)), tas: Some(210) };
+    let step = if c.thorough { 1usize } else { 7 };
+    for g in (0..=300u16).step_by(step) {
+        for t in (40..=250u16).step_by(step) {
+            if !c.mine() {
+                continue;
+            }
+            let (gs, tas) = (2 * g as i32, 2 * t as i32);
+            if (gs - tas).abs() > 200 {
+                continue;
+            }
+            let mb = frames::mb_bds50(Bds50 { gs: Some(g), tas: Some(t), ..base });
+            for (df, f) in commb_frames(&mb, ((g as u32) << 10) | t as u32) {
+                if let Some(v) = decode(c, &f, "bds50") {
+                    let reg = &v["bds50"];
+                    if reg.is_null() {
+                        c.r.violation("C03:bds50:not-labelled:GSxTAS", format!("{df} with GS {gs} kt and TAS {tas} kt (inside the documented acceptance region) is not labelled bds50: {}", hexs(&f)), json!({"frame": hexs(&f), "field": "bds50"}));
+                    } else {
+                        expect_num(c, &f, "GSxTAS:groundspeed:BDS50", &reg["groundspeed"], gs as f64, 0.0, g as i64);
+                        expect_num(c, &f, "GSxTAS:TAS:BDS50", &reg["TAS"], tas as f64, 0.0, t as i64);
+                    }
+                }
+            }
+        }
+    }
+    let step = if c.thorough { 1usize } else { 5 };
+    for sign in [0u8, 1] {
+        for rv in (0..=284u16).step_by(step) {
+            for tv in (0..=510u16).step_by(step * 3) {
+                if !c.mine() {
+                    continue;
+                }
+                // same sign for both: code v (positive) or 512 - v (negative)
+                let (rc, tc) = if sign == 1 { ((512 - rv) & 0x1ff, (512 - tv) & 0x1ff) } else { (rv, tv) };
+                if sign == 1 && (rv == 0 || tv == 0) {
+                    continue;
+                }
+                let roll = sgn(sign, rc, 9) * 45.0 / 256.0;
+                let rate = sgn(sign, tc, 9) * 8.0 / 256.0;
+                if roll.abs() > 50.0 || tc == 511 {
+                    continue;
+                }
+                let mb = frames::mb_bds50(Bds50 { roll: Some((sign, rc)), rate: Some((sign, tc)), ..base });
+                for (df, f) in commb_frames(&mb, ((rc as u32) << 9) | tc as u32) {
+                    if let Some(v) = decode(c, &f, "bds50") {
+                        let reg = &v["bds50"];
+                        if reg.is_null() {
+                            c.r.violation("C03:bds50:not-labelled:ROLLxRATE", format!("{df} with roll {roll} and track rate {rate} (same sign) is not labelled bds50: {}", hexs(&f)), json!({"frame": hexs(&f), "field": "bds50"}));
+                        } else {
+                            expect_num(c, &f, "ROLLxRATE:roll:BDS50", &reg["roll"], roll, 1e-9, rc as i64);
+                            expect_num(c, &f, "ROLLxRATE:track_rate:BDS50", &reg["track_rate"], rate, 1e-9, tc as i64);
+                        }
+                    }
+                }
+            }
+        }
+    }
+}
+
 fn bds60(c: &mut Ctx) {
     // companions: heading 90, IAS 280, Mach 0.78, vrates +640
     let base = Bds60 { hdg: Some((0, 512)), ias: Some(280), mach: Some(195), vr_baro: Some((0, 20)), vr_ins: Some((0, 20)) };
@@ -719,6 +782,7 @@ pub fn run(a: &Args, r: &mut Report) {
     tss(&mut c);
     bds40(&mut c);
     bds50(&mut c);
+    bds50_pairs(&mut c);
     bds60(&mut c);
     bds60_pairs(&mut c);
     bds05_in_df20(&mut c, a, &mut rng);
